@@ -84,6 +84,10 @@ func c13Rules(p *core.Prog, r *core.Run) {
 	r.Check("C13.HDR", "header:words", hdrB && hdrD, p.Pos(mb.Pos()), "both sides use six 16-bit header words: id, flags, qdcount, ancount, nscount, arcount (encoder: %v, decoder: %v)", hdrB, hdrD)
 	c13Flags(p, r, mb, dec)
 	c13Counts(p, r, dec)
+	// the message decoder itself gives up only where a
+	// read or a sub-decoder failed (a plausibility test on the counts, a size
+	// estimate, refuses encodings that are valid)
+	decoderRejections(p, r, dec, "C13.QRR")
 
 	// --- QRR
 	qB := between(mbS, "loop{ call:addName(Question.Name)", "}")
@@ -451,7 +455,7 @@ func c13DecoderKeys(p *core.Prog, r *core.Run, dht *ssa.Function, rule string) {
 			expand(p.X(st.Val), 0)
 			foreign := ""
 			for _, base := range leaves {
-				own := base.Op == "field" && base.Name == fld && base.Args[0].Op == "new" || base.Op == "const" || base.Op == "new"
+				own := base.Op == "field" && base.Name == fld && base.Args[0].Op == "new" || base.Op == "const" || base.Op == "new" || base.Op == "rec"
 				if !own {
 					foreign = short(base)
 				}
@@ -1117,6 +1121,41 @@ func c13RCode(p *core.Prog, r *core.Run, rc *ssa.Function, rule string) {
 					for _, f := range w.fs {
 						if f.String() == nf.String() {
 							dry = true
+						}
+						// the search result merged into one variable, tested for
+						// "not found": idx := φ{i where Additional[i].Type == 41 | -1
+						// after the loop ran dry}, and this way lies under idx < 0
+						ph, isPhi := f.L.Val.(*ssa.Phi)
+						kk, isK := int64(0), false
+						if f.R != nil {
+							kk, isK = f.R.ConstInt()
+						}
+						if isPhi && isK && (f.Op == "<" && kk == 0 || f.Op == "==" && kk == -1 || f.Op == "<=" && kk == -1) {
+							okPhi := len(ph.Edges) >= 2
+							for j, ed := range ph.Edges {
+								pred := ph.Block().Preds[j]
+								efs := append(p.EdgeFacts(pred, ph.Block()), p.Facts(pred)...)
+								if c, isC := ed.(*ssa.Const); isC && c.Value != nil && c.Int64() == -1 {
+									ranDry := false
+									for _, ef := range efs {
+										if ef.String() == nf.String() {
+											ranDry = true
+										}
+									}
+									okPhi = okPhi && ranDry
+									continue
+								}
+								found := false
+								for _, ef := range efs {
+									if ef.Op == "==" && ef.R != nil && ef.R.Name == "41" && ef.L.Op == "field" && ef.L.Name == "Type" && ef.L.Args[0].Op == "index" && ef.L.Args[0].Args[1].String() == p.X(ed).String() {
+										found = true
+									}
+								}
+								okPhi = okPhi && found
+							}
+							if okPhi {
+								dry = true
+							}
 						}
 					}
 					allNot := true
